@@ -1182,10 +1182,13 @@ pub fn describe_path(root: &Value, path: &str) -> String {
 
 /// A handful of boundary values per field for the pairwise blocks of Gen (empty = field does not
 /// take part: lists, spares, counts, tags).
-pub fn pair_values(f: &Field) -> Vec<Val> {
+pub fn pair_values(f: &Field, depth: Depth) -> Vec<Val> {
     let n = |v: &[i64]| v.iter().map(|x| Val::N(*x)).collect::<Vec<_>>();
     match &f.ty {
-        Ty::U8 => n(&[0, 1, 0x7f, 0x80, 0xff]),
+        // full depth: the whole byte, so that the product of two byte fields is complete (a
+        // condition on two particular mid-range values is met); light: boundaries and a few mid values
+        Ty::U8 if depth == Depth::Full => (0..=255).map(Val::N).collect(),
+        Ty::U8 => n(&[0, 1, 2, 7, 0x2a, 0x7f, 0x80, 0xc8, 0xfe, 0xff]),
         Ty::U16 | Ty::Ms16 | Ty::Cs16 => n(&[0, 1, 0xff, 0x100, 0xffff]),
         Ty::I16 => n(&[0, 1, -1, 32767, -32768]),
         Ty::U32 | Ty::Ms32 | Ty::Cs32 | Ty::Ip4 => n(&[0, 1, 0xffff, 0x10000, 0xffff_ffff]),
